@@ -6,6 +6,7 @@ import (
 	"os"
 	"strings"
 	"testing"
+	"time"
 
 	"github.com/orda-io/orda/client/pkg/model"
 	"github.com/orda-io/orda/client/pkg/orda"
@@ -43,6 +44,21 @@ func TestReplay(t *testing.T) {
 			t.Fatalf("%v", err)
 		}
 		fmt.Println("NOT REPRODUCED: the replayed case passes on this tree")
+	}
+	if singleThreaded(j.Test) {
+		// a replayed self-deadlock hangs again: report it instead of waiting for the test deadline
+		go func() {
+			prev := ""
+			for {
+				time.Sleep(5 * time.Second)
+				where := blockedInOrdaMutex()
+				if where != "" && where == prev {
+					fmt.Printf("REPRODUCED: deadlock: %s\n", where)
+					os.Exit(1)
+				}
+				prev = where
+			}
+		}()
 	}
 	switch {
 	case strings.HasPrefix(j.Test, "TestC01"), strings.HasPrefix(j.Test, "TestC02"), strings.HasPrefix(j.Test, "TestC04"), strings.HasPrefix(j.Test, "TestC15History"):
